@@ -872,6 +872,9 @@ def kdt_match(x, y, K=15, distance_upper_bound=np.inf):
     from scipy import spatial
     kdt = spatial.cKDTree(y)
     D, inds = kdt.query(x, k=K, distance_upper_bound=distance_upper_bound)
+    if K == 1:
+        # query squeezes the neighbour axis for a single neighbour
+        D, inds = D[:, None], inds[:, None]
 
     II = np.zeros_like(inds)
     selected = []
